@@ -60,29 +60,34 @@ section
 variable {C : Codec} (hC : C.Valid)
 include hC
 
-theorem fmtDur_spec {d : Int} (hd : d.natAbs ≤ durMax.toNat) :
+theorem fmtDur_spec {d : Int} (hd : DurDom d) :
     ∃ (q n : Nat), C.fmtDur d = decText (decide (d < 0)) q ∧
       C.parseDur (C.fmtDur d) = some (if d < 0 then -(n : Int) else n) ∧
-      q * 10000 ≤ d.natAbs + 5000 ∧ d.natAbs ≤ q * 10000 + 5000 ∧ n ≤ q * 10000 ∧ q * 10000 ≤ n + 1 := by
+      q * 10000 ≤ d.natAbs + 5000 ∧ d.natAbs ≤ q * 10000 + 5000 ∧ n ≤ q * 10000 + 1 ∧ q * 10000 ≤ n + 1 := by
   obtain ⟨q, h1, h2, h3⟩ := hC.fmt_dur d hd
+  have hmx : durMax.toNat = 1000000000000000 := by decide
   have hq : q ≤ 100000000000 := by
-    have : durMax.toNat = 1000000000000000 := by decide
+    have := hd.1
     omega
-  obtain ⟨n, h4, h5, h6⟩ := hC.parse_dur (decide (d < 0)) q hq
+  have hq0 : decide (d < 0) = true → 0 < q := by
+    intro hneg
+    have := hd.2 (by simpa using hneg)
+    omega
+  obtain ⟨n, h4, h5, h6⟩ := hC.parse_dur (decide (d < 0)) q hq hq0
   refine ⟨q, n, h1, ?_, h2, h3, h5, h6⟩
   rw [h1, h4]
   by_cases hneg : d < 0 <;> simp [hneg]
 
-theorem durUnmarshal_fmt {d : Int} (hd : d.natAbs ≤ durMax.toNat) :
+theorem durUnmarshal_fmt {d : Int} (hd : DurDom d) :
     durUnmarshal C (C.fmtDur d) = .ok (C.requant d) := by
   obtain ⟨q, n, _, h2, _⟩ := fmtDur_spec hC hd
   simp [durUnmarshal, Codec.requant, h2]
 
-theorem fmtDur_chars {d : Int} (hd : d.natAbs ≤ durMax.toNat) : (C.fmtDur d).all durChar = true := by
+theorem fmtDur_chars {d : Int} (hd : DurDom d) : (C.fmtDur d).all durChar = true := by
   obtain ⟨q, n, h1, _⟩ := fmtDur_spec hC hd
   rw [h1]; exact decText_chars _ _
 
-theorem requant_ne_zero {d : Int} (hd : d.natAbs ≤ durMax.toNat) (h5 : 5000 < d.natAbs) : C.requant d ≠ 0 := by
+theorem requant_ne_zero {d : Int} (hd : DurDom d) (h5 : 5000 < d.natAbs) : C.requant d ≠ 0 := by
   obtain ⟨q, n, _, h2, h3, h4, h5', h6⟩ := fmtDur_spec hC hd
   simp only [Codec.requant, h2, Option.getD_some]
   have hn : 0 < n := by omega
@@ -90,21 +95,37 @@ theorem requant_ne_zero {d : Int} (hd : d.natAbs ≤ durMax.toNat) (h5 : 5000 < 
 
 end
 
-theorem natAbs_lt_of_posDur {d : Int} (h : posDur d = true) : d.natAbs ≤ durMax.toNat ∧ 5000 < d.natAbs := by
+theorem natAbs_lt_of_posDur {d : Int} (h : posDur d = true) : DurDom d ∧ 5000 < d.natAbs := by
+  simp only [posDur, Bool.and_eq_true, decide_eq_true_eq] at h
+  have : durMax.toNat = 1000000000000000 := by decide
+  have : durMax = 1000000000000000 := by decide
+  refine ⟨⟨by omega, fun _ => by omega⟩, by omega⟩
+
+theorem natAbs_lt_of_nnDur {d : Int} (h : nnDur d = true) : DurDom d := by
+  simp only [nnDur, Bool.and_eq_true, decide_eq_true_eq] at h
+  have : durMax.toNat = 1000000000000000 := by decide
+  have : durMax = 1000000000000000 := by decide
+  exact ⟨by omega, fun _ => by omega⟩
+
+theorem natAbs_lt_of_signedDur {d : Int} (h : signedDur d = true) : DurDom d ∧ 5000 < d.natAbs := by
+  simp only [signedDur, Bool.and_eq_true, decide_eq_true_eq] at h
+  exact ⟨⟨by omega, fun _ => h.1⟩, h.1⟩
+
+theorem margin_of_posDur {d : Int} (h : posDur d = true) : d.natAbs + 5000 < durMax.toNat := by
   simp only [posDur, Bool.and_eq_true, decide_eq_true_eq] at h
   have : durMax.toNat = 1000000000000000 := by decide
   have : durMax = 1000000000000000 := by decide
   omega
 
-theorem natAbs_lt_of_nnDur {d : Int} (h : nnDur d = true) : d.natAbs ≤ durMax.toNat := by
+theorem margin_of_nnDur {d : Int} (h : nnDur d = true) : d.natAbs + 5000 < durMax.toNat := by
   simp only [nnDur, Bool.and_eq_true, decide_eq_true_eq] at h
   have : durMax.toNat = 1000000000000000 := by decide
   have : durMax = 1000000000000000 := by decide
   omega
 
-theorem natAbs_lt_of_signedDur {d : Int} (h : signedDur d = true) : d.natAbs ≤ durMax.toNat ∧ 5000 < d.natAbs := by
+theorem margin_of_signedDur {d : Int} (h : signedDur d = true) : d.natAbs + 5000 < durMax.toNat := by
   simp only [signedDur, Bool.and_eq_true, decide_eq_true_eq] at h
-  exact ⟨Nat.le_of_lt h.2, h.1⟩
+  exact h.2
 
 /-! ## rendered attribute lists of the tags -/
 
